@@ -14,7 +14,7 @@ import json, os, re, subprocess, sys, time, hashlib, shutil, concurrent.futures 
 ROOT = os.path.dirname(os.path.abspath(__file__))
 REPO = os.environ.get("VERIF_REPO", "/repo")
 # development runs against another checkout (VERIF_REPO) keep their scratch files and evidence apart
-ALT = "" if REPO == "/repo" else "-alt"
+ALT = "" if REPO == "/repo" else "-alt" + os.environ.get("VERIF_ALT_TAG", "")
 # development: VERIF_ONLY=Entry1,Entry2 runs only those harness entries (scratch files and evidence kept apart)
 ONLY = [x for x in os.environ.get("VERIF_ONLY", "").split(",") if x]
 if ONLY:
